@@ -139,6 +139,16 @@ func (w *webWriter) flushWithTrailer() {
 		if c, ok := w.resp.(io.Closer); ok {
 			c.Close()
 		}
+	} else {
+		// Trailers-only response: a gRPC-web client cannot read HTTP
+		// trailers, so everything travels in the header.
+		hdr := w.Header()
+		for key, val := range hdr {
+			if name := strings.TrimPrefix(key, http.TrailerPrefix); name != key {
+				delete(hdr, key)
+				hdr[name] = val
+			}
+		}
 	}
 	w.Flush()
 }
